@@ -205,6 +205,13 @@ def run(run: Run) -> None:
     us.append((3, [big3, A.scaled(pick3[1], A.TINY)], SA[0], "l1_norm", "exact3-scales", (), seed))
     nonsa = [g for g in A.a3_any() if not A.is_superadditive(g)]
     us.append((3, [nonsa[(131 * (seed + 1)) % len(nonsa)], nonsa[(977 * (seed + 3)) % len(nonsa)]], SA[1], "linf_norm", "exact3-nonsa", (), seed))
+    # hidden games outside the class the computer assumes: a reveal can RAISE the gap there (the rules of the solvers do not care)
+    any4 = [g for g in A.a4_any_sample() if not A.is_superadditive(g)]
+    for k in range(2 if quick else 8):
+        us.append((4, any4[(53 * (seed + 1) + 101 * k) % len(any4)], SA[k % 2], ("exploitability", "l1_norm")[k % 2], f"exact4-nonsa#{k}", (), seed))
+    for k, name in enumerate(("noisy_factory", "graph_random") if quick else ("noisy_factory", "graph_random", "factory_cheerleader_next", "xos")):
+        if name in gens.names():
+            us.append((4, ("GEN", name, 4, gens.seed_window(seed, 1)[0]), "sam_apx_1", "exploitability", f"gen4-sam-computer:{name}", (), seed))
     g5 = A.shifted(tuple(A.popcount(s) ** 2 + (s % 3) for s in range(32)), (1, -1, 2, 0, 3))
     keep5 = (3, 12, 7, 25, 30, 15)            # six explorable coalitions of mixed sizes -> 64 env states
     us.append((5, [g5, A.scaled(g5, 0.5)], SA[1], "l1_norm", "exact5-six-explorable", tuple(s for s in A.explorable_ids(5) if s not in keep5), seed))
